@@ -2,20 +2,39 @@
 (***************************************************************************)
 (* C11  Suspicion timeout takes effect iff unrefuted; Down is final until  *)
 (*      forgotten.                                                         *)
-(* The connection epoch of the timer is read from the hook token (the      *)
-(* inference of the epoch from notifications is C13's business).           *)
+(* The connection epoch of a timer is judged twice: by the hook token and, *)
+(* independently of the implementation's own bookkeeping, by the epoch     *)
+(* changes the environment can observe between its issue and its delivery  *)
+(* (Idle, Defunct, Rejoin notifications, change_identity,                  *)
+(* reuse_down_identity): a timeout issued before such an event is stale    *)
+(* whatever its token says.                                                *)
 (***************************************************************************)
 EXTENDS MonCommon
 
 \* issued: every suspicion timer the instance ever handed to submit_after; timers that were
 \* never issued (forged) are outside the property's quantifier
-C11Init == [issued |-> {}, v |-> {}]
+\* iss2: <<timer, observed epoch at issue>>;  ep: observed epoch changes so far
+C11Init == [issued |-> {}, iss2 |-> {}, ep |-> 0, v |-> {}]
 
-SuspectTimeout(o) ==
+\* walks the effects of a call in order: <<epoch, pairs>>
+RECURSIVE C11Walk(_, _, _)
+C11Walk(out, ep, acc) ==
+    IF out = <<>> THEN <<ep, acc>>
+    ELSE LET x == Head(out) IN
+         IF x.k = "notify" /\ x.n.k \in {"Idle", "Defunct", "Rejoin"} THEN C11Walk(Tail(out), ep + 1, acc)
+         ELSE IF x.k = "timer" /\ x.t.k = "Suspect" THEN C11Walk(Tail(out), ep, acc \cup {<<x.t, ep>>})
+         ELSE C11Walk(Tail(out), ep, acc)
+
+\* stale by observation: issued (only) in earlier observed epochs, all of them within the width of the token
+ObsStale(m, t) ==
+    LET E == {p[2] : p \in {q \in m.iss2 : q[1] = t}} IN
+    E # {} /\ m.ep \notin E /\ \A e \in E : m.ep - e < TokenMod
+
+SuspectTimeout(m, o) ==
     LET t == o.args
         r == RowOf(o.pre.state, Addr(t.id))
         r2 == RowOf(o.post.state, Addr(t.id))
-        eligible == /\ t.tok = o.hpre.tok
+        eligible == /\ t.tok = o.hpre.tok /\ ~ObsStale(m, t)
                     /\ r # <<>> /\ r[1].id = t.id /\ r[1].inc = t.inc /\ r[1].st # "D"
         S == OSends(o.out)
         N == Notifs(o.out)
@@ -53,11 +72,16 @@ DownFinal(o) ==
       "Down-record-revived-or-removed-other-than-by-its-forget-timer")
 
 C11Step(m, o) ==
+    LET start == IF (o.call = "change_identity" /\ o.post.id # o.pre.id) \/ (o.call = "reuse" /\ o.res = "Ok")
+                 THEN m.ep + 1 ELSE m.ep
+        w == C11Walk(o.out, start, m.iss2)
+    IN
     [issued |-> m.issued \cup {e.t : e \in {x \in Range(OTimers(o.out)) : x.t.k = "Suspect"}},
+     iss2 |-> w[2], ep |-> w[1],
      v |-> DownFinal(o)
            \* (the case-table driver c11 constructs its timers: there every timeout is judged)
            \cup (IF o.call = "timer" /\ o.args.k = "Suspect" /\ (o.args \in m.issued \/ o.env.driver = "c11")
-                 THEN SuspectTimeout(o) ELSE {})
+                 THEN SuspectTimeout(m, o) ELSE {})
            \cup (IF o.call = "timer" /\ o.args.k = "RemoveDown"
                  THEN V(\A i \in DOMAIN o.pre.state :
                             (o.pre.state[i].id # o.args.id \/ o.pre.state[i].st # "D") =>
